@@ -84,10 +84,16 @@ def check_case(ctx, out, descs, w, mode, origin):
     sc_v = max([abs(v) for v in list(pot_x.values()) + list(volt_x.values())] + [0.0])
     sc_i = max([abs(v) for v in cur_x.values()] + [0.0])
     raw = max([abs(v) for v in list(pot_x.values()) + list(cur_x.values())] + [0.0])
-    def near(got, want, cls_scale):
+    def near(got, want, cls_scale, current=False):
+        # floor: rounding of the solve, ~eps·(magnitude of the solution); a current is a potential difference times an
+        # admittance, so its floor scales with the largest admittance of the circuit
         got = complex(got); want = complex(want)
-        return np.isfinite(got) and abs(got - want) <= 1e-6 * fscale * cls_scale + 1e-12 * fscale * (1.0 + raw)
+        floor = 1e-10 * (1.0 + raw) * (y_adm if current else 1.0)
+        return np.isfinite(got) and abs(got - want) <= fscale * (1e-6 * cls_scale + floor)
     ymax = max([abs(core.cfloat(b['e']['a'])) for b in sp['net']['branches']] + [1.0])
+    adm = [abs(core.cfloat(b['e']['a'])) if b['e']['k'] == 'T' else (1.0 / abs(core.cfloat(b['e']['a'])) if abs(core.cfloat(b['e']['a'])) > 0 else 0.0)
+           for b in sp['net']['branches']]
+    y_adm = max(adm + [1.0])
     # ---- implementation
     try:
         C = cc.Circuit(list(comps))
@@ -97,7 +103,7 @@ def check_case(ctx, out, descs, w, mode, origin):
     except Exception as e:
         out.spec_fail(dict(canon, symptom='raises', exc=gc.tag(e)),
                       f'analysis of a well-posed circuit raises {type(e).__name__}: {e}', inp,
-                      impl=dict(exception=repr(e)), descs=descs, w=w, mode=mode)
+                      impl=dict(exception=repr(e)), descs=gc.tag_types(descs), w=w, mode=mode)
         return
     if A.size and (not np.all(np.isfinite(A)) or np.linalg.cond(A) > 1e8):
         out.skip('ill_conditioned:' + origin); return
@@ -147,14 +153,14 @@ def check_case(ctx, out, descs, w, mode, origin):
                     got = complex(getter(i))
                 except Exception as e:
                     bad = (name, i, gc.tag(e), f(want)); break
-                if not (core.close(got, f(want), scale, tol) and near(got, f(want), sc_v if name == 'voltage' else sc_i)):
+                if not (core.close(got, f(want), scale, tol) and near(got, f(want), sc_v if name == 'voltage' else sc_i, current=(name == 'current'))):
                     bad = (name, i, got, f(want)); break
             if bad: break
     if bad is not None:
         sym = 'raises' if isinstance(bad[2], str) else 'not_the_solution'
         out.spec_fail(dict(canon, symptom=sym, quantity=bad[0]),
                       f'{mode} {bad[0]} of {bad[1]!r} is {bad[2]} but the exact phasor solution gives {bad[3]}', inp,
-                      impl=str(bad[2]), spec=str(bad[3]), descs=descs, w=w, mode=mode)
+                      impl=str(bad[2]), spec=str(bad[3]), descs=gc.tag_types(descs), w=w, mode=mode)
         return
     # ---- power of both complex modes agrees (peak: ½·V·conj I, rms: V·conj I)
     if mode in ('peak', 'rms'):
@@ -164,10 +170,10 @@ def check_case(ctx, out, descs, w, mode, origin):
                 p1, p2 = complex(S.get_power(b.id)), complex(other.get_power(b.id))
                 if not core.close(p1, p2, scale * scale, 1e-9):
                     out.spec_fail(dict(canon, symptom='power_modes_differ'), f'peak and RMS power of {b.id!r} differ', inp,
-                                  impl=str(p1), spec=str(p2), descs=descs, w=w, mode=mode)
+                                  impl=str(p1), spec=str(p2), descs=gc.tag_types(descs), w=w, mode=mode)
                     return
         except Exception as e:
-            out.spec_fail(dict(canon, symptom='raises', exc=gc.tag(e)), f'power raises {type(e).__name__}', inp, descs=descs, w=w, mode=mode)
+            out.spec_fail(dict(canon, symptom='raises', exc=gc.tag(e)), f'power raises {type(e).__name__}', inp, descs=gc.tag_types(descs), w=w, mode=mode)
             return
     out.count('verified:' + origin)
     out.nontrivial((tuple(kinds), len(labels), mode, w == 0, origin == 'high_frequency' and round(math.log10(max(w, 1e-9)))))
@@ -416,6 +422,7 @@ def replay(ctx, out, rp):
     descs = rp.get('descs')
     if descs is None:
         raise SystemExit('replay file carries no component descriptions')
+    descs = gc.untag_types(descs)          # numpy-typed values are stored with their type
     check_case(ctx, out, descs, rp.get('w', 0.0), rp.get('mode', 'peak'), 'replay')
     if rp.get('canon') is not None:          # report only the recorded failure
         out.spec_failures = [sf for sf in out.spec_failures if sf['canon'] == rp['canon']]
